@@ -24,7 +24,6 @@ LEVEL = "model_checking"
 MC = "MC_Lookup"
 TRACE = "Trace_Lookup"
 WORKER = "fn_lookup.py"
-POISON = ("retype", "repl")          # edits after which the worker does not reuse the engine (see fn_lookup)
 
 
 # ---------------------------------------------------------------------------------------------
@@ -374,6 +373,21 @@ def isolate(viol, workdir, limit=40):
   return out
 
 
+def _synthetic():
+  """T = {#1 k=1 s1=2, #2 k=1 s1=1}; observers order_by='-s1' and lookupOne(order_by='s1'); probe q=1."""
+  key = [{"col": "k", "how": "eq", "src": "q", "me": NONE}]
+  obs = [{"one": False, "keys": key, "mode": "order_by", "ord": [{"c": "s1", "desc": True}]},
+         {"one": True, "keys": key, "mode": "order_by", "ord": [{"c": "s1", "desc": False}]}]
+  content = lambda s1: {"k": I(1), "L": NONE, "s1": I(s1), "s2": S("a"), "r": I(0)}
+  probes = [{"id": 1, "q": I(1), "p": I(1)}]
+  rows = [dict(content(2), id=1, pos=1), dict(content(1), id=2, pos=2)]
+  step = {"ty": {"k": "Int", "L": "ChoiceList", "s1": "Int", "s2": "Text", "r": "Ref"}, "rows": rows,
+          "probes": probes, "cells": [[[1, 2]], [[2]]], "errs": [], "di": 0, "dn": 0}
+  case = {"inp": {"fam": "synthetic", "ox": 1, "probes": probes, "init": [content(2), content(1)], "edits": [],
+                  "session": []}, "out": [step], "from": 0, "exc": "", "s0": 1}
+  return [obs], case, 0, (0, 0), (1, 0)
+
+
 def _selftest(files, entries, workdir):
   """The binding: a recorded step that the judge accepted is corrupted in three ways (two ids of a
   result swapped; the last id of a result dropped; a lookupOne answer replaced by 0) and each
@@ -399,8 +413,8 @@ def _selftest(files, entries, workdir):
         break
     if base:
       break
-  if base is None:
-    raise tlc.MachineryError("self-test: no accepted step with a result of two rows and a lookupOne hit")
+  if base is None:       # nothing suitable was accepted (a badly broken tree): use a synthetic record
+    base = _synthetic()
   obsets, c, n, (j, p), (j1, p1) = base
   c = dict(c, **{"from": n})
 
@@ -481,7 +495,7 @@ def run(ctx):
   for h in hist + r_hist:
     h["session"] = []
   t0, cpu0 = time.time(), _cpu()
-  files = execute(obsets + r_obsets, hist + r_hist, ctx.workdir, nshards=16)
+  files = execute(obsets + r_obsets, hist + r_hist, ctx.workdir, nshards=8 if ctx.quick else 16)
   t_engine, cpu_engine = time.time() - t0, _cpu() - cpu0
   cpu0 = _cpu()
   entries, t_judge = judge(files, ctx.workdir)
